@@ -692,6 +692,10 @@ def run_batch(mod, prop, tier, batch_seed, repo, workers, runs_override=None, wa
           f"steps={total['steps']} wall={wall:.1f}s ({rate:,.0f} evaluations/h) "
           f"violations={len(violations_out)} violating_runs={len(total['violations'])} known_findings={len(printed_known)}"
           + (" TRUNCATED-BY-WALL-CAP" if truncated else ""), flush=True)
+    stuck = sorted(p for p in getattr(mod, "EXPECTED_PROBES", []) if not total["probes"].get(p))
+    if stuck and runs_override is None and not truncated:
+        # reach, not a verdict: a fault kind or rare condition that never happened in this batch
+        print(f"note: probes stuck at zero in this batch: {', '.join(stuck)}", flush=True)
     return 1 if violations_out else 0
 
 
